@@ -251,6 +251,9 @@ func checkConserved(t *T, via string, spec Spec, order []int, cond ach.Condition
 		}
 		t.Fail(sig, what+" ("+via+", "+where+")", SpecInput(spec, order, cond), d.Detail, "every input entry exactly once, unchanged, in a file of its own origin/destination")
 	}
+	if !ok {
+		return false // the route of an entry is only meaningful once the entries themselves agree
+	}
 	// entries of different origin/destination never share an output file: every
 	// entry of an output file must come from an input with the output's own route.
 	inRoutes := map[string]map[string]bool{}
